@@ -1,0 +1,154 @@
+//go:build verif
+
+// Contracts for govc (contract-based deductive verification); comments only.
+package binding
+
+// ---- ghost protocol state for C11 -------------------------------------------------------------
+// bindAttempts(): number of Interface.Bind calls so far; rollbacks(): number of Interface.Rollback calls;
+// bindNodeOf(p): name of the node handed to the most recent Bind call for pod p.
+//@ ghost bindAttempts() int
+//@ ghost rollbacks() int
+//@ ghost bindNodeOf(p *v1.Pod) string
+
+// ASSUMED contracts of the binder interface as seen by the reconciler (outcome nondeterministic).
+//@ func Interface.Bind
+//@   props C11
+//@   requires task != nil && host != nil && bindRequest != nil
+//@   modifies bindAttempts(), bindNodeOf(task)
+//@   ensures bindAttempts() == old(bindAttempts()) + 1
+//@   ensures bindNodeOf(task) == host.Name
+//@ end
+
+//@ func Interface.Rollback
+//@   props C11
+//@   requires task != nil && host != nil && bindRequest != nil
+//@   modifies rollbacks()
+//@   ensures rollbacks() == old(rollbacks()) + 1
+//@ end
+
+// ---- (*Binder).Bind ---------------------------------------------------------------------------
+// boundTo(p): the node the API store has pod p bound to ("" = unbound). Only the assumed contract of the
+// pods/binding sub-resource create writes it.
+//@ import rr "github.com/NVIDIA/KAI-scheduler/pkg/binder/binding/resourcereservation"
+//@ ghost boundTo(p *v1.Pod) string
+//@ define podObj(o ref) *v1.Pod = unbox(o, "*v1.Pod")
+//@ define bindingObj(o ref) *v1.Binding = unbox(o, "*v1.Binding")
+
+// ASSUMED contracts of the external controller-runtime client.
+//@ func sigs.k8s.io/controller-runtime/pkg/client.Client.SubResource
+//@   props C11
+//@   pure
+//@   ensures result != nil
+//@ end
+// SubResource("binding").Create(ctx, pod, binding): success binds the pod to binding.Target.Name, failure leaves it alone.
+//@ func sigs.k8s.io/controller-runtime/pkg/client.SubResourceClient.Create
+//@   props C11
+//@   requires obj != nil && subResource != nil
+//@   modifies boundTo(podObj(obj))
+//@   ensures result == nil && typeis(obj, "*v1.Pod") && typeis(subResource, "*v1.Binding") ==> boundTo(podObj(obj)) == bindingObj(subResource).Target.Name
+//@   ensures !(result == nil && typeis(obj, "*v1.Pod") && typeis(subResource, "*v1.Binding")) ==> boundTo(podObj(obj)) == old(boundTo(podObj(obj)))
+//@ end
+// Client.Patch(ctx, pod, patch): the response is decoded into the object; identity fields are immutable.
+//@ func sigs.k8s.io/controller-runtime/pkg/client.Client.Patch
+//@   props C11
+//@   requires obj != nil
+//@   modifies fields(podObj(obj))
+//@   ensures podObj(obj).Name == old(podObj(obj).Name) && podObj(obj).Namespace == old(podObj(obj).Namespace) && podObj(obj).UID == old(podObj(obj).UID)
+//@ end
+//@ func sigs.k8s.io/controller-runtime/pkg/client.RawPatch
+//@   props C11
+//@   pure
+//@   ensures result != nil
+//@ end
+//@ func encoding/json.Marshal
+//@   props C11
+//@   pure
+//@ end
+
+//@ func (*Binder).patchResourceReceivedTypeAnnotation
+//@   props C11
+//@   requires b != nil && b.kubeClient != nil && pod != nil && bindRequest != nil
+//@   modifies fields(pod)
+//@   ensures pod.Name == old(pod.Name) && pod.Namespace == old(pod.Namespace) && pod.UID == old(pod.UID)
+//@ end
+
+// C11: "... the attempt's side effects removed or removable by the next sync": Rollback removes the GPU-group labels
+// found on the in-memory pod, so after a successful reservation that pod carries the label of EVERY selected group
+// (runai-gpu-group for a single-fraction pod, runai-gpu-group/<group> for a multi-fraction pod) and agrees with the store.
+//@ func (*Binder).reserveGPUs
+//@   props C11 C17
+//@   requires b != nil && b.resourceReservationService != nil && pod != nil && bindRequest != nil
+// a decoded pod never shares one map object between its labels and its annotations
+//@   requires pod.Labels == nil || pod.Labels != pod.Annotations
+//@   modifies pod.Labels, pod.Labels[*], pod.ResourceVersion, rr.podRev(pod), family(rr.gone(nil))
+//@   loop 1
+//@     invariant 0 - 1 <= rangeindex && rangeindex < len(bindRequest.Spec.SelectedGPUGroups)
+//@     invariant len(gpuIndexes) == rangeindex + 1
+//@     invariant forall k string :: old(k in pod.Labels) ==> (k in pod.Labels)
+//@     invariant pod.Labels == old(pod.Labels) || fresh(pod.Labels)
+//@     invariant forall k string :: pod.Annotations[k] == old(pod.Annotations[k]) && (k in pod.Annotations) == old(k in pod.Annotations)
+//@     invariant old(rr.singleFraction(pod)) && rangeindex >= 0 ==> ("runai-gpu-group" in pod.Labels)
+//@     invariant old(rr.multiFraction(pod)) ==> (forall i int :: 0 <= i && i <= rangeindex ==> (rr.multiKey(bindRequest.Spec.SelectedGPUGroups[i]) in pod.Labels))
+//@     invariant rangeindex >= 0 ==> (forall k string :: rr.labelStored(pod, k) == pod.Labels[k])
+//@     decreases len(bindRequest.Spec.SelectedGPUGroups) - rangeindex
+// C17: "every pod bound into the group is given that reservation pod's device index": one index per selected group
+//@   ensures [one-index-per-selected-group] result1 == nil ==> len(result0) == len(bindRequest.Spec.SelectedGPUGroups) && len(result0) > 0
+//@   ensures result1 != nil ==> len(result0) == 0
+//@   ensures [single-fraction-pod-labelled-in-memory] result1 == nil && old(rr.singleFraction(pod)) ==> ("runai-gpu-group" in pod.Labels)
+//@   ensures [every-selected-group-labelled-in-memory] result1 == nil && old(rr.multiFraction(pod)) ==> (forall i int :: 0 <= i && i < len(bindRequest.Spec.SelectedGPUGroups) ==> (rr.multiKey(bindRequest.Spec.SelectedGPUGroups[i]) in pod.Labels))
+//@   ensures [labels-map-kept-or-new] pod.Labels == old(pod.Labels) || fresh(pod.Labels)
+//@   ensures [stored-labels-are-the-in-memory-labels] result1 == nil ==> forall k string :: rr.labelStored(pod, k) == pod.Labels[k]
+//@   ensures [in-memory-labels-only-grow] forall k string :: old(k in pod.Labels) ==> (k in pod.Labels)
+//@ end
+
+// C11: "the pod ends either bound to exactly the node named in the request ..., or unbound with the request reported
+// Failed"; "never bound ... to another node". DESIGN C11: err = nil ==> bound(pod) = node; err != nil ==> bound(pod)
+// unchanged (the binding sub-resource create is the last call that can fail, so no failure point leaves the pod
+// bound AND reports failure); the only node ever named in a binding create is node.Name.
+//@ func (*Binder).Bind
+//@   props C11
+//@   requires b != nil && b.kubeClient != nil && b.resourceReservationService != nil && b.plugins != nil
+//@   requires pod != nil && node != nil && bindRequest != nil
+//@   requires forall i int :: 0 <= i && i < len(b.plugins.plugins) ==> b.plugins.plugins[i] != nil
+// a decoded pod never shares one map object between its labels and its annotations
+//@   requires pod.Labels == nil || pod.Labels != pod.Annotations
+//@   modifies boundTo(pod), fields(pod), pod.Labels[*], rr.podRev(pod), family(rr.gone(nil)), rr.nodeSyncs(), rr.lastNodeSyncSawRemovals()
+// C17: every bind attempt starts with a sync of the selected node's GPU groups
+//@   ensures [bind-starts-with-node-sync] rr.nodeSyncs() == old(rr.nodeSyncs()) + 1
+//@   ensures [success-means-bound-to-the-given-node] result == nil ==> boundTo(pod) == node.Name
+//@   ensures [failure-leaves-the-pod-unbound] result != nil ==> boundTo(pod) == old(boundTo(pod))
+//@ end
+
+//@ import bp "github.com/NVIDIA/KAI-scheduler/pkg/binder/plugins"
+//@ func errors.Join
+//@   props C11
+//@   trusted
+//@   note library function (no body in the loaded program): documented behaviour, nil iff every argument is nil
+//@   pure
+//@   ensures (result == nil) == (forall i int :: 0 <= i && i < len(errs) ==> errs[i] == nil)
+//@ end
+
+// C11: "... or unbound with the request reported Failed and the attempt's side effects removed or removable by the
+// next sync". Rollback never touches the binding (boundTo is not in its frame) and attempts EVERY compensation step
+// even when an earlier one failed: plugin rollbacks always; for shared-GPU requests also the removal of the pod's
+// GPU-group labels and the node-wide reservation sync.
+// The labels REMOVED from the store are exactly the group labels of the in-memory pod Rollback was given (that is all
+// RemovePodGpuGroupsConnection can see): together with reserveGPUs' "every stored group label is on the in-memory
+// pod" this is "the attempt's side effects removed"; a label stored but absent from memory survives the rollback.
+// C17: "a reservation pod exists if and only if at least one live pod still carries that group ... after ... bind
+// failures ... and the sync that follows them": the node sync of a rollback runs AFTER the label removal (a sync
+// that runs before it still sees the labelled Pending consumer and keeps the reservation pod).
+//@ func (*Binder).Rollback
+//@   props C11 C17
+//@   requires b != nil && b.resourceReservationService != nil && b.plugins != nil
+//@   requires pod != nil && node != nil && bindRequest != nil
+//@   modifies fields(pod), family(rr.gone(nil)), rr.nodeSyncs(), rr.labelRemovals(), rr.lastNodeSyncSawRemovals(), rr.podRev(pod), bp.pluginRollbacks()
+//@   requires forall i int :: 0 <= i && i < len(b.plugins.plugins) ==> b.plugins.plugins[i] != nil
+//@   ensures [plugins-rolled-back] bp.pluginRollbacks() == old(bp.pluginRollbacks()) + len(b.plugins.plugins)
+//@   ensures [shared-gpu-labels-removed-and-node-synced] bindRequest.Spec.ReceivedResourceType == "Fraction" ==> rr.labelRemovals() == old(rr.labelRemovals()) + 1 && rr.nodeSyncs() == old(rr.nodeSyncs()) + 1
+//@   ensures [whole-gpu-nothing-else] bindRequest.Spec.ReceivedResourceType != "Fraction" ==> rr.labelRemovals() == old(rr.labelRemovals()) && rr.nodeSyncs() == old(rr.nodeSyncs())
+//@   ensures [sync-after-label-removal] bindRequest.Spec.ReceivedResourceType == "Fraction" ==> rr.lastNodeSyncSawRemovals() == rr.labelRemovals()
+//@   ensures [in-memory-group-label-removed-from-store] result == nil && bindRequest.Spec.ReceivedResourceType == "Fraction" && old("runai-gpu-group" in pod.Labels) ==> rr.labelStored(pod, "runai-gpu-group") == ""
+//@   ensures [in-memory-multi-group-labels-removed-from-store] result == nil && bindRequest.Spec.ReceivedResourceType == "Fraction" ==> (forall g string :: old(rr.multiKey(g) in pod.Labels) ==> rr.labelStored(pod, rr.multiKey(g)) == "")
+//@   ensures [only-in-memory-labels-removed] forall k string :: !old(k in pod.Labels) ==> rr.labelStored(pod, k) == old(rr.labelStored(pod, k))
+//@ end
